@@ -228,6 +228,59 @@ def make_partial_of_wraps():
     return p, [p] + roots
 
 
+def make_handbuilt_upgraded_signature():
+    from sigtools import signatures
+    import inspect
+
+    def f(a, b=1):
+        return a
+    P = signatures.UpgradedParameter
+    f.__signature__ = signatures.UpgradedSignature([P('q', inspect.Parameter.POSITIONAL_OR_KEYWORD)])
+    return f, [f]
+
+
+class HandbuiltCallable(object):
+    def __call__(self, a, b):
+        return a
+
+
+def make_handbuilt_on_instance():
+    from sigtools import signatures
+    import inspect
+    inst = HandbuiltCallable()
+    shared = signatures.UpgradedSignature([signatures.UpgradedParameter('z', inspect.Parameter.KEYWORD_ONLY)])
+    inst.__signature__ = shared
+    other = HandbuiltCallable()
+    other.__signature__ = shared
+    return inst, [inst, other]
+
+
+@specifiers.forger_function
+def raising_forger_emulated(obj):
+    raise ValueError('forger refuses')
+
+
+def make_forger_raises_emulate():
+    @raising_forger_emulated(emulate=True)
+    def w(a, *args, **kwargs):
+        return inner(*args, **kwargs)
+    return w, [w]
+
+
+class RaisingForgedClass(object):
+    __signature__ = specifiers.as_forged
+
+    @specifiers.forwards_to_method('missing_attribute')
+    def __call__(self, x, *args, **kwargs):
+        return x
+
+
+def make_as_forged_forger_fails():
+    cls = type('RaisingForgedCopy', (RaisingForgedClass,), {'__signature__': specifiers.as_forged})
+    inst = cls()
+    return inst, [inst, cls]
+
+
 def make_annotate_then_kwoargs():
     def f(a, b=1, *args, **kwargs):
         return inner(*args, **kwargs)
@@ -237,7 +290,8 @@ def make_annotate_then_kwoargs():
 
 SCENARIOS = ('wraps1', 'wraps2', 'own_signature', 'own_signature_and_wrapped', 'as_forged_class', 'as_forged_instance',
              'signature_property', 'forwards_to_function', 'forwards_emulate', 'forger_raises', 'kwoargs_function',
-             'kwoargs_method', 'wrappers_decorator', 'partial_of_wraps', 'annotate_then_kwoargs')
+             'kwoargs_method', 'wrappers_decorator', 'partial_of_wraps', 'annotate_then_kwoargs',
+             'handbuilt_upgraded_signature', 'handbuilt_on_instance', 'forger_raises_emulate', 'as_forged_forger_fails')
 RETRIEVERS = (('sigtools.signature', lambda o: sigtools.signature(o)),
               ('inspect.signature', lambda o: inspect.signature(o)))
 
@@ -277,7 +331,7 @@ def reach(roots):
         out[id(o)] = (o, dict((k, id(v)) for k, v in allv.items()))
         for k, v in allv.items():
             if k in ('__wrapped__', '__signature__', 'func', 'wrapper', '__func__', '__self__', '_signature_forger',
-                     'slot:func', 'slot:__self__') or isinstance(v, (types.FunctionType, functools.partial)):
+                     'slot:func', 'slot:__self__', 'slot:__signature__') or isinstance(v, (types.FunctionType, functools.partial)):
                 if not isinstance(v, (types.ModuleType, str, int)) and getattr(v, '__module__', '') not in ('builtins',):
                     todo.append(v)
         if not isinstance(o, type) and getattr(type(o), '__module__', '').startswith('vfp_'):
